@@ -487,6 +487,8 @@ def run_all(ctx):
                 approx = mo[0] == 'ERR' and mo[1] == 'OtherError'
                 if approx:
                     count('model_skipped_libm_or_nan')
+                elif mo[0] == 'TIMEOUT':
+                    count('model_budget_exceeded')       # the driver's per-case budget (very deep nesting sweeps): no model answer
                 else:
                     st['traces_validated_against_impl'] += 1
                     if mo[0] == 'OK':
